@@ -132,6 +132,15 @@ def judge (c : Cell) (o : Obs) : String :=
   else if !endEquivOk o then s!"fail:equiv-end:streaming ends [run={o.s.runToken} end={o.s.end_.name} closed={o.s.closedToken}], preload [run={o.p.runToken} end={o.p.end_.name} closed={o.p.closedToken}]"
   else "ok"
 
+/-- a source that `NewProvider` must reject (inline uris with another decoder than uri, a file AND uris, no source at
+all): the property only asks that both modes treat it alike -/
+def judgeRejected (o : Obs) : String :=
+  if o.s.run == .construct && o.p.run == .construct then "ok"
+  else if (o.s.run == .construct) != (o.p.run == .construct) then
+    s!"fail:equiv-end:a source that one mode rejects and the other accepts: streaming [{showSide o.s}] vs preload [{showSide o.p}]"
+  else if !equivOk o then s!"fail:equiv-end:streaming [{showSide o.s}] vs preload [{showSide o.p}]"
+  else "ok"
+
 /-! ## round 2: the delivered REQUESTS (Host + headers, method, body), and a provider that kills its process
 
 `ehdr[i]` = the canonical text of the Host and headers a request of entry `i` must carry (what the source declares
